@@ -165,7 +165,15 @@ def cases(draw):
             if clear_of(big, pts[:np_], boxes[:nb_]) and geom.signed_dist(big, 0.0, 0.0) > 3.0:
                 regions[ridx] = big
                 rnd.prog.insert(k, ["rereg", fin])
-    return {"config": cfg, "regions": regions, "prog": rnd.prog,
+        if regions and draw(st.integers(0, 3)) == 0:
+            # the regions are not there from the start: the user draws them (all of them) at some point of the print - they are
+            # clear of the whole path, so the print still never touches one
+            first_edit = [i for i, it in enumerate(rnd.prog) if it[0] == "rereg"]
+            k = draw(st.integers(2, first_edit[0] if first_edit else len(rnd.prog)))
+            late = [["reg", r] for r in regions]
+            rnd.prog[k:k] = late
+            regions = []
+    return {"config": cfg, "regions": regions, "prog": rnd.prog, "via": draw(st.sampled_from(["direct", "direct", "plugin"])),
             "meta": {"mode": mode, "fw": fw, "excluded_known": rnd.excluded_known}}
 
 
@@ -202,14 +210,18 @@ def run_case(case, strict=False):  # pylint: disable=unused-argument
         elif it.kind == "at":
             if it.out:
                 out.append(asserts.F("c02_at_sends", it, "@-command sent %r although no episode can be open" % (it.out,)))
-    if case["regions"]:
+    if case["regions"] or any(i[0] == "reg" for i in case["prog"]):
         cl.add("has_regions")
+    if any(i[0] == "reg" for i in case["prog"]):
+        cl.add("regions_drawn_mid_print")
+    if case.get("via") == "plugin":
+        cl.add("via_plugin_hooks")
     if any(i[0] == "rereg" for i in case["prog"]):
         cl.add("region_edited_mid_print")
     for k in ("g90e", "ext", "debug"):
         if case["config"].get(k):
             cl.add("cfg_" + k)
-    nontrivial = (bool(case["regions"]) or case.get("meta", {}).get("mode") == "disabled") and cycles >= 1 and extr >= 1
+    nontrivial = ("has_regions" in cl or case.get("meta", {}).get("mode") == "disabled") and cycles >= 1 and extr >= 1
     return out, {"nontrivial": nontrivial, "classes": sorted(cl), "excluded_known": case.get("meta", {}).get("excluded_known", 0),
                  "sample": {"regions": case["regions"], "mode": case.get("meta", {}).get("mode"),
                             "prog": [i[1] if i[0] == "g" else i for i in case["prog"]]}}
